@@ -35,7 +35,8 @@ struct Cell { var child; int64_t id; int64_t owner; uint64_t canary; var child2;
 static char* arena_base;              /* (arena_base >> 3) % MODW == 0 */
 static int A;                         /* universe size */
 static int propC06;
-static const int residue[MAXA] = { 0, 0, 0, 0, 1264, 0, 1264, 0, 0, 1264 };
+/* home slot 0 for every registry size, interleaved with home = last slot: the third address already wraps around */
+static const int residue[MAXA] = { 0, 0, 1264, 0, 1264, 0, 0, 1264, 0, 1264 };
 
 enum { K_NONE = 0, K_STD, K_ROOT, K_RAW, K_UNREG /* allocated while the collector was stopped */ };
 
@@ -792,12 +793,15 @@ static void exit_modes(void) {
         lastkind = "thread-exit";
         /* the main thread needs a collector of its own while the worker runs */
         gc = new_raw(GC, $R(stack_bottom));
+        volatile var mine = new(Int, $I(7));   /* the creating thread has managed objects of its own, allocated first */
         var fobj = $(Function, exit_body);
         var th = new_raw(Thread, fobj);
         var e = VF_CATCH(call(th); join(th));
         if (e) vf_violation(L("raises"), NULL, "thread raised %s", vf_exc_name(e));
         else exit_judge("after the thread was joined");
         del_raw(th);
+        if (!mem(gc, (var)mine) || c_int((var)mine) != 7) vf_violation(L("creators-object-disturbed"), NULL, "an object of the creating thread was reclaimed or damaged while the worker ran");
+        mine = NULL;
         del_raw(gc); gc = NULL;
       } else {
         lastkind = "program-exit";
